@@ -76,7 +76,7 @@ func (wtr *XMLWtr) container(lvl int) node.Node {
 			return nil, nil
 		}
 		if !meta.IsList(r.Meta) {
-			if err = wtr.beginContainer(wtr.ident(r.Path)); err != nil {
+			if err = wtr.beginContainer(wtr.ident(r.Path) + wtr.xmlnsAttr(r.Path)); err != nil {
 				return nil, err
 			}
 		}
@@ -113,12 +113,17 @@ func (wtr *XMLWtr) container(lvl int) node.Node {
 		ns := ""
 
 		if l, listable := hnd.Val.(val.Listable); listable {
+			if !(lvl == 0 && first) {
+				ns = wtr.changedXmlns(r.Path)
+			}
 			for i := 0; i < l.Len(); i++ {
 				wtr.writeLeafElement(ns, r.Path, l.Item(i))
 			}
 		} else {
 			if lvl == 0 && first {
 				ns = wtr.getXmlns(r.Path)
+			} else {
+				ns = wtr.changedXmlns(r.Path)
 			}
 			wtr.writeLeafElement(ns, r.Path, hnd.Val)
 		}
@@ -130,7 +135,7 @@ func (wtr *XMLWtr) container(lvl int) node.Node {
 			return
 		}
 
-		ident := wtr.ident(r.Selection.Path)
+		ident := wtr.ident(r.Selection.Path) + wtr.xmlnsAttr(r.Selection.Path)
 
 		if err = wtr.beginContainer(ident); err != nil {
 			return
@@ -153,6 +158,27 @@ func (wtr *XMLWtr) getXmlns(p *node.Path) string {
 		ns = meta.OriginalModule(p.Meta).Namespace()
 	}
 	return ns
+}
+
+// changedXmlns is the namespace of the element for p when it is not the one of the
+// enclosing element, which is where nodes of another module (augments, groupings of
+// an imported module) need their own xmlns
+func (wtr *XMLWtr) changedXmlns(p *node.Path) string {
+	if p == nil || p.Parent == nil || p.Parent.Meta == nil {
+		return ""
+	}
+	ns := wtr.getXmlns(p)
+	if wtr.getXmlns(p.Parent) == ns {
+		return ""
+	}
+	return ns
+}
+
+func (wtr *XMLWtr) xmlnsAttr(p *node.Path) string {
+	if ns := wtr.changedXmlns(p); ns != "" {
+		return " xmlns=" + "\"" + ns + "\""
+	}
+	return ""
 }
 
 func (wtr *XMLWtr) beginContainer(ident string) (err error) {
